@@ -29,6 +29,7 @@ def gen_conf(rng, i):
     conns, expect = {}, []
     my4, my6 = '192.0.2.1', '2001:db8::1'
     used = set()
+    used_idx = set()
     for c in range(rng.randrange(1, 4)):
         v6 = rng.random() < 0.3
         my = my6 if v6 else my4
@@ -37,7 +38,10 @@ def gen_conf(rng, i):
         base_nets = None
         for e in range(rng.randrange(1, 4)):
             p = {}
-            idx = rng.choice([c * 10 + e + 1, rng.randrange(1, 2 ** 20), 2 ** 29 - 1 - (c * 3 + e)])
+            idx = rng.choice([c * 10 + e + 1, rng.randrange(1, 2 ** 20), 2 ** 29 - 1 - (c * 3 + e), rng.randrange(1, 8)])
+            while idx in used_idx:
+                idx = rng.randrange(1, 2 ** 20)         # explicit indices are the administrator's: pairwise different (small ones are popular)
+            used_idx.add(idx)
             p['index'] = idx
             indexless = rng.random() < 0.2
             nv6 = v6 if rng.random() < 0.8 else not v6
@@ -238,7 +242,7 @@ def acquire_case(ck, rng, i):
         base = dict(ca['conn']['protect'][0])
         for k_ in ('my_subnet', 'peer_subnet'):
             base.pop(k_, None)
-        base['lifetime'] = 100 + 50 * (e['index'] % 7)
+        base['lifetime'] = 100 + 50 * (e['index'] % 7) if e['index'] != 13 else -1      # (the ICMP entry never expires: `lifetime: -1`)
         x = dict(base, index=e['index'], my_subnet=e['my_subnet'], peer_subnet=e['peer_subnet'], my_port=e['my_port'], peer_port=e['peer_port'], ip_proto=e['ip_proto'], mode=e['mode'])
         y = dict(base, index=e['index'], my_subnet=e['peer_subnet'], peer_subnet=e['my_subnet'], my_port=e['peer_port'], peer_port=e['my_port'], ip_proto=e['ip_proto'], mode=e['mode'])
         if e['index'] == 12 and i % 4 >= 2:
@@ -354,7 +358,11 @@ def acquire_case(ck, rng, i):
                 lft = r_['msg']['sa']['lft']
                 ck.count('acquire.lifetimes_checked')
                 want = pa[ents.index(e)]['lifetime']
-                if not (want <= lft['soft_add'] <= want + 5 and lft['hard_add'] == lft['soft_add'] + 10):
+                if want == -1:
+                    ck.count('acquire.no_expiry_lifetimes_checked')
+                    if lft['soft_add'] != 0 or lft['hard_add'] != 0:
+                        ck.violation('sa-of-an-entry-without-expiry-installed-with-a-time-limit', {'entry': e['index'], 'soft': lft['soft_add'], 'hard': lft['hard_add']}, sim.case)
+                elif not (want <= lft['soft_add'] <= want + 5 and lft['hard_add'] == lft['soft_add'] + 10):
                     ck.violation('installed-sa-lifetime-is-not-the-entrys', {'entry': e['index'], 'soft': lft['soft_add'], 'hard': lft['hard_add'], 'configured': want}, sim.case)
     # the SAs that REPLACE an entry's SAs at a rekey (soft expire of the newest CHILD_SA at A) carry the entry's lifetime again
     est = [x for x in a.ctl.ike_sas if x.state.name == 'ESTABLISHED' and x.child_sas]
@@ -368,7 +376,10 @@ def acquire_case(ck, rng, i):
             if r_['msg'] and r_['msg']['name'] == 'NEWSA':
                 lft = r_['msg']['sa']['lft']
                 ck.count('acquire.rekeyed_lifetimes_checked')
-                if not (child.lifetime <= lft['soft_add'] <= child.lifetime + 5 and lft['hard_add'] == lft['soft_add'] + 10):
+                if child.lifetime == -1:
+                    if lft['soft_add'] != 0 or lft['hard_add'] != 0:
+                        ck.violation('sa-of-an-entry-without-expiry-installed-with-a-time-limit:after-a-rekey', {'soft': lft['soft_add'], 'hard': lft['hard_add']}, sim.case)
+                elif not (child.lifetime <= lft['soft_add'] <= child.lifetime + 5 and lft['hard_add'] == lft['soft_add'] + 10):
                     ck.violation('installed-sa-lifetime-is-not-the-entrys:after-a-rekey', {'entry': ent_idx, 'soft': lft['soft_add'], 'hard': lft['hard_add'], 'configured': child.lifetime}, sim.case)
     # unknown index
     tab0 = [(id(x), x.state.name) for x in a.ctl.ike_sas]
@@ -590,6 +601,7 @@ def run(ck):
 
 def verdict(ck):
     c = ck.counters
+    ck.floor('SAs of an entry with lifetime -1 whose kernel lifetime was checked', c['acquire.no_expiry_lifetimes_checked'], 20)
     ck.floor('configurations with entries that leave the index to the daemon', c['spd.configurations_with_entries_without_an_explicit_index'], 60)
     ck.floor('answers of a responder that does not narrow an any-protocol entry with a port', c['lenient_responder.answers'], 40)
     ck.floor('lifetimes of SAs installed by a rekey compared with the entry', c['acquire.rekeyed_lifetimes_checked'], 20)
